@@ -54,11 +54,13 @@ pub struct RiOpts {
     /// the caller keeps iterating after an error item caused by a virtual signal (the row's
     /// driver call was made, the row is consumed; iteration goes on with the next row)
     pub continue_after_virtual_error: bool,
+    /// second-opinion mode, see DevSim::call_of_item
+    pub call_of_item: Option<Vec<usize>>,
 }
 
 impl Default for RiOpts {
     fn default() -> Self {
-        RiOpts { row_cap: 300, step_cap: 200_000, counter_from_env: false, draws: None, continue_after_virtual_error: false }
+        RiOpts { row_cap: 300, step_cap: 200_000, counter_from_env: false, draws: None, continue_after_virtual_error: false, call_of_item: None }
     }
 }
 
@@ -69,6 +71,9 @@ pub struct RiOut {
     pub bits: usize,
     pub expected: ExpVal,
     pub output: OutVal,
+    /// the expected value comes from a literal / X / Z entry or from no column at all (not
+    /// from an expression the program evaluates)
+    pub expected_is_literal: bool,
 }
 
 #[derive(Clone, Debug, PartialEq, Eq)]
@@ -534,16 +539,21 @@ impl<'a> Ri<'a> {
     fn row(&mut self, id: usize, es: &'a [Entry]) -> Result<(), Stop> {
         // evaluate left to right at the moment the row is reached
         let mut evs: Vec<Ev> = vec![];
+        let mut computed: Vec<bool> = vec![];
         for en in es {
             match en {
                 Entry::Num(v, _) => evs.push(Ev::Num(*v as i64)),
                 Entry::Paren(e) => {
                     let v = self.eval(e).map_err(|h| self.hazard(h, false))?;
+                    computed.resize(evs.len(), false);
+                    computed.push(true);
                     evs.push(Ev::Num(v));
                 }
                 Entry::Bits(k, e) => {
                     let v = self.eval(e).map_err(|h| self.hazard(h, false))?;
+                    computed.resize(evs.len(), false);
                     for j in (0..*k).rev() {
+                        computed.push(true);
                         evs.push(Ev::Num((v >> j) & 1));
                     }
                 }
@@ -552,6 +562,12 @@ impl<'a> Ri<'a> {
                 Entry::C(_) => evs.push(Ev::C),
             }
         }
+        computed.resize(evs.len(), false);
+        let is_literal = |col_name: &str| -> bool {
+            self.prog.header.iter().position(|h| h == col_name).map(|c| !computed[c]).unwrap_or(true)
+        };
+        let literal_cols: Vec<(String, bool)> = self.prog.header.iter().map(|h| (h.clone(), is_literal(h))).collect();
+        let lit = |name: &str| literal_cols.iter().find(|(h, _)| h == name).map(|(_, l)| *l).unwrap_or(true);
         let env = self.flat_env();
         if self.depth > 0 {
             self.facts.rows_in_loops += 1;
@@ -601,6 +617,7 @@ impl<'a> Ri<'a> {
                     depth: self.depth,
                 };
                 expansion_index += 1;
+                self.dev.current_item = self.items.len();
                 if *checked {
                     match self.dev.read() {
                         Err(f) => {
@@ -625,6 +642,7 @@ impl<'a> Ri<'a> {
                                     bits: s.bits,
                                     expected,
                                     output,
+                                    expected_is_literal: lit(&s.expected_col().unwrap()),
                                 });
                             }
                             let virtuals = self.virtuals.clone();
@@ -640,6 +658,7 @@ impl<'a> Ri<'a> {
                                         bits: 64,
                                         expected,
                                         output: OutVal::Val(v),
+                                        expected_is_literal: lit(name),
                                     }),
                                     Err(h) => {
                                         if self.opts.continue_after_virtual_error {
@@ -675,7 +694,7 @@ pub fn run(prog: &Program, sigs: &[Sig], spec: &DriverSpec, opts: &RiOpts) -> Ri
         prog,
         sigs,
         virtuals: prog.virtuals(),
-        dev: DevSim::new(spec),
+        dev: DevSim { call_of_item: opts.call_of_item.clone(), ..DevSim::new(spec) },
         opts,
         frames: vec![vec![]],
         outs: BTreeMap::new(),
